@@ -419,28 +419,9 @@ def make_flag_contract(prop, cls='MSSMNoFV_onshell_problems', file=PB, sectors=N
 make_flag_contract('C04')
 
 # the gaugino sectors: what reaches the decomposition routine is the mass matrix itself (same statement as `solver_receives_mass_matrix` of the 2x2 scalar sectors)
-def make_solver_input(nm, solver, n):
-    @obligation('C04.spectrum.solver_input.%s' % nm, fns=[(ME, CLS + '::calculate_M' + nm)])
-    def ob(ctx, nm=nm, solver=solver, n=n):
-        """ensures: calculate_M<X> hands get_mass_matrix_<X>() -- every entry, on every path -- to the decomposition routine, exactly once"""
-        handed = []
-        it = Interp(ctx.w, mode='sym')
-        M = Mat(n, n, [[z3.Real('m%d%d' % (i, j)) for j in range(n)] for i in range(n)], 'matrix', False)
-        it.stubs.update({solver: lambda i, ar, t: handed.append(ar[0].copy()), CLS + '::get_mass_matrix_' + nm: lambda i, ar, t: M})
-        m = it.new_object('MSSMNoFV_onshell')
-        def run():
-            del handed[:]
-            it.call('calculate_M' + nm, [], this=m)
-            return list(handed)
-        paths = it.run_paths(run)
-        ctx.merge_rules(it)
-        for k, (sym, hd, exc) in enumerate(paths):
-            if len(hd) != 1 or hd[0].r != n:
-                ctx.record('path%d' % k, FAILED, 'B', 0, 'the decomposition routine is called %d times' % len(hd))
-                continue
-            ctx.prove('path%d' % k, sym.pc, z3.And(*[z3real(hd[0].get(i, j)) == z3real(M.get(i, j)) for i in range(n) for j in range(n)]), check_vacuity=False)
-        ctx.record('paths', PROVED if paths else ERROR, 'B', 0, '%d path(s)' % len(paths))
-    return ob
+from contracts.shared import make_solver_input as _msi
+def make_solver_input(nm, solver, n, prop='C04', cls=None, file=None, model_cls='MSSMNoFV_onshell'):
+    return _msi(nm, solver, n, prop, cls or CLS, file or ME, model_cls)
 
 make_solver_input('Cha', 'fs_svd', 2)
 make_solver_input('Chi', 'fs_diagonalize_symmetric', 4)
